@@ -247,6 +247,8 @@ def record_history(Heap, cap, policy, rng, nops, ncost):
         choices = ["rem"] * 3
         if white:
             choices += ["ins"] * 3 + ["updw"] * 2
+        if len(nong) > len(white):
+            choices += ["reins"] * 2          # an element returned earlier is inserted again (a drained heap is refilled)
         if gray:
             choices += ["updg"] * 4
         if nong:
@@ -263,6 +265,11 @@ def record_history(Heap, cap, policy, rng, nops, ncost):
                 col[rr] = "B"
         elif op == "ins":
             e = rng.choice(white)
+            r = h.insert(e)
+            ops.append({"op": "ins", "e": e, "c": 0, "ret": 1 if r is True else 0, **f})
+            col[e] = "G"
+        elif op == "reins":
+            e = rng.choice([x for x in nong if col[x] == "B"])
             r = h.insert(e)
             ops.append({"op": "ins", "e": e, "c": 0, "ret": 1 if r is True else 0, **f})
             col[e] = "G"
@@ -339,7 +346,7 @@ def simulated_histories(rep, Heap, cap, policy, num, depth, seed):
                 h.cost[args[0]] = args[1]
                 key[args[0]] = args[1]
                 ops.append({"op": "set", "e": args[0], "c": args[1], "ret": 0, **f})
-            elif name == "Insert" and col[args[0]] == "W" and nq < cap:
+            elif name == "Insert" and col[args[0]] != "G" and nq < cap:
                 r = h.insert(args[0])
                 col[args[0]] = "G"
                 ops.append({"op": "ins", "e": args[0], "c": 0, "ret": 1 if r is True else 0, **f})
@@ -458,7 +465,7 @@ def run(tier, seed):
     rep.assumptions = [
         "TLC, CommunityModules Json/IOUtils",
         "exhaustive up to Cap<=%d, costs {0,1,2}; beyond that sampled histories (cap<=20, <=300 ops)" % max(caps),
-        "domain: inserts of never-queued elements, improving updates (C05's hypothesis)",
+        "domain: inserts of elements that are not queued (never queued or returned before), improving updates (C05's hypothesis)",
     ]
     return rep.finish()
 
